@@ -602,6 +602,11 @@ def next_psuedo_matches(state: TokenizerState) -> TokenInfo | None:
     if (not match) or (not match.lastgroup):
         return None
     start, end = match.span(match.lastgroup)
+    if match.lastgroup == "StringStart" and start and state.line[start - 1] == "$" and state.line[start].isalpha():
+        # '$' NAME: the letters after the dollar sign are the variable's name, not a string prefix ($b"x" is $b and "x")
+        match = _compile(choice(Name=Name)).match(state.line, start)
+        assert match is not None
+        start, end = match.span("Name")
     if match.lastgroup == "Name" and end < state.max and not state.line[end].isascii():
         # identifier characters that \w does not cover (combining marks, variation selectors)
         # (a character continues an identifier iff it does so after any identifier start: no need to re-test the whole name)
